@@ -149,6 +149,17 @@ def source_literals(stage):
     return sorted(lits)[:4000]
 
 
+_env_like = None
+
+
+def env_like_literals(stage):
+    global _env_like
+    if _env_like is None:
+        import re
+        _env_like = [b.decode() for b in source_literals(stage) if re.fullmatch(rb"[A-Z][A-Z0-9]*(_[A-Z0-9]+)+", b) and len(b) >= 6]
+    return _env_like
+
+
 def write_dict(stage):
     lits = source_literals(stage)
     with open(os.path.join(stage, "zz_verif_dict_test.go"), "w") as f:
@@ -255,6 +266,13 @@ def main():
         )
         if race:
             env["GORACE"] = "halt_on_error=1 exitcode=66 log_path=" + os.path.join(rd, "race")
+        # literals of the tree under test that look like environment variable names: odd shards run
+        # with every one of them set to "0", shards = 2 mod 4 with "1" (a knob read from the
+        # environment must not move what the property fixes); the built-in tree has none that matter
+        if i % 2 == 1 or i % 4 == 2:
+            for name in env_like_literals(stage):
+                if name not in env:
+                    env[name] = "0" if i % 2 == 1 else "1"
         if a.replay:
             env["VERIF_REPLAY"] = os.path.abspath(a.replay)
         if a.sub:
